@@ -6,6 +6,7 @@ CONSTANTS
   PolicyTabs = {1, 2}
   AuthzTabs = {0, 1, 2}
   InitAuthz = {0, 1, 2}
+  InitPtab = {1, 2}
   Users = {"alice", "bob"}
   Permissive = FALSE
   Bug = {}
